@@ -1,11 +1,21 @@
 import Blue.Model.Kvs
+import Blue.Model.NextCompaction
 import Blue.Proofs.SpecBounds
 import Blue.Driver.Util
 /-! Driver verbs for the store model (instance `kvs`): point reads, invariants I1 ∧ I2 and
     closedness of a chosen compaction, all evaluated on a dumped store state.
 
     state tokens:  `ts=<n> mem=<ents> imm=<ents|none> L<i>:<id>:<first>:<last>:<sts>:<bts>:<ents> …`
-    ents: `-` or comma-separated `khex@ts=vhex` | `khex@ts!`;  keys are ranked in byte order. -/
+    ents: `-` or comma-separated `khex@ts=vhex` | `khex@ts!`;  keys are ranked in byte order.
+
+    selector verbs (model `Blue.NextCompaction.nextCompaction`, the function):
+    `select full|some <levels> <mof> <mcb> <mcf> <mandF> <mandB> :: L<i>:<id>:<first>:<last>:<size>:<bts> … ::
+      G<lower>:<upper>:<first>:<last>:<size>:<id,id,…|-> …`  (after the second `::` the compactions in
+    flight) answers `<lower> <upper> <first> <last> <id> … inv=ok|violated` (the chosen compaction, inputs
+    in the order of `CompactionCore::inputs`, and the decidable tree invariant `invB` — the hypothesis
+    of `nextCompaction_closed` — on the tree of the request) or `none inv=…`; with `some` only
+    `some` / `none`.
+    `f64tab` prints the two floating-point tables of the model, `scale <level> <score>` one value. -/
 namespace Blue.Driver.C01
 open Blue.Driver Blue.Kvs Blue.Spec
 
@@ -173,8 +183,93 @@ def isTomb (s : RawState) (keys : List (List Nat)) (v : Ver Nat) : Bool :=
   | some e => e.val.isNone
   | none => false
 
+
+/-! ### the selector as a function -/
+
+structure SelFile where
+  level : Nat
+  id : String
+  first : List Nat
+  last : List Nat
+  size : Nat
+  bts : Nat
+
+structure SelCore where
+  lower : Nat
+  upper : Nat
+  first : List Nat
+  last : List Nat
+  size : Nat
+  inputs : List String
+
+def parseSelFile (s : String) : Option SelFile :=
+  match s.splitOn ":" with
+  | [l, id, f, la, sz, bts] =>
+    if l.startsWith "L" then
+      match (l.drop 1).toString.toNat?, parseHex f, parseHex la, sz.toNat?, bts.toNat? with
+      | some lv, some fb, some lb, some s1, some b1 => some ⟨lv, id, fb, lb, s1, b1⟩
+      | _, _, _, _, _ => none
+    else none
+  | _ => none
+
+def parseSelCore (s : String) : Option SelCore :=
+  match s.splitOn ":" with
+  | [l, u, f, la, sz, ins] =>
+    if l.startsWith "G" then
+      match (l.drop 1).toString.toNat?, u.toNat?, parseHex f, parseHex la, sz.toNat? with
+      | some lo, some up, some fb, some lb, some s1 =>
+        some ⟨lo, up, fb, lb, s1, if ins = "-" then [] else ins.splitOn ","⟩
+      | _, _, _, _, _ => none
+    else none
+  | _ => none
+
+def idIndex (ids : List String) (id : String) : Nat := (ids.takeWhile (· ≠ id)).length
+
+def selectAnswer (full : Bool) (nlev : Nat) (o : Blue.NextCompaction.Opts) (files : List SelFile) (og : List SelCore) : String :=
+  let keys := (files.flatMap (fun f => [f.first, f.last]) ++ og.flatMap (fun g => [g.first, g.last])).foldl
+    (fun acc k => insertKey k acc) []
+  let ids := files.map (·.id)
+  let tree : Blue.NextCompaction.Tree := (List.range nlev).map fun i =>
+    (files.filter (·.level == i)).map fun f => ⟨idIndex ids f.id, rank keys f.first, rank keys f.last, f.size, f.bts, []⟩
+  let ogm : List Blue.NextCompaction.Core := og.map fun g =>
+    ⟨g.lower, g.upper, rank keys g.first, rank keys g.last, g.inputs.map (idIndex ids), g.size⟩
+  -- the hypothesis of `nextCompaction_closed`, evaluated on the tree of the request
+  let inv := if Blue.NextCompaction.invB tree then " inv=ok" else " inv=violated"
+  match Blue.NextCompaction.nextCompaction Blue.NextCompaction.ieee o tree ogm with
+  | none => if full then "none" ++ inv else "none"
+  | some c =>
+    if full then
+      " ".intercalate ([toString c.lower, toString c.upper, hexOfBytes (keys.getD c.first []), hexOfBytes (keys.getD c.last [])]
+        ++ c.inputs.map (fun i => ids.getD i "?")) ++ inv
+    else "some"
+
+def parseInt (s : String) : Option Int :=
+  if s.startsWith "-" then (s.drop 1).toString.toNat?.map (fun n => -(n : Int)) else s.toNat?.map (fun n => (n : Int))
+
+def hex16 (n : Nat) : String := String.ofList ((List.range 16).map fun i => hexDigitC (n / 16 ^ (15 - i) % 16))
+
+def handleSelect (toks : List String) : String :=
+  match toks with
+  | "f64tab" :: [] =>
+    "curve " ++ " ".intercalate ((List.range 16).map fun l => toString (Blue.NextCompaction.ieee.curve l))
+      ++ " factor " ++ " ".intercalate (Blue.NextCompaction.factorBits.map hex16)
+  | ["scale", l, s] =>
+    match l.toNat?, parseInt s with
+    | some lv, some sc => toString (Blue.NextCompaction.ieee.scale lv sc)
+    | _, _ => "bad-op"
+  | "select" :: mode :: nlev :: mof :: mcb :: mcf :: mf :: mb :: "::" :: rest =>
+    let (fs, gs) := splitAtSep rest
+    match nlev.toNat?, mof.toNat?, mcb.toNat?, mcf.toNat?, mf.toNat?, mb.toNat?, allSome (fs.map parseSelFile), allSome (gs.map parseSelCore) with
+    | some nl, some a, some b, some c, some d, some e, some files, some og =>
+      if mode = "full" then selectAnswer true nl ⟨a, b, c, d, e⟩ files og
+      else if mode = "some" then selectAnswer false nl ⟨a, b, c, d, e⟩ files og
+      else "bad-op"
+    | _, _, _, _, _, _, _, _ => "bad-op"
+  | _ => "bad-op"
+
 def handle (toks : List String) : String :=
   match toks with
+  | "select" :: _ | "f64tab" :: _ | "scale" :: _ => handleSelect toks
   | "load" :: rest =>
     let (st, qs) := splitAtSep rest
     match parseState st, allSome (qs.map parseHex) with
